@@ -441,7 +441,7 @@ func runC20(e *Env) error {
 		}
 		reps := 150
 		if e.Thorough() {
-			reps = 1500
+			reps = 400
 		}
 		for rep := 0; rep < reps; rep++ {
 			if again := run(); again != first {
